@@ -270,11 +270,8 @@ func (r *Run) checkExtAuth() {
 	r.probe("model_compared")
 	st := r.buildRef()
 	for _, ing := range r.selectedIngresses() {
-		url := ing.Annotations[annPrefix+"auth-url"]
-		oauth := ing.Annotations[annPrefix+"oauth"]
-		if url == "" && oauth == "" {
-			continue
-		}
+		ingURL := ing.Annotations[annPrefix+"auth-url"]
+		ingOAuth := ing.Annotations[annPrefix+"oauth"]
 		ingKey := ing.Namespace + "/" + ing.Name
 		for _, rule := range ing.Spec.Rules {
 			if rule.HTTP == nil || rule.Host == "" || strings.HasPrefix(rule.Host, "*.") {
@@ -285,7 +282,24 @@ func (r *Run) checkExtAuth() {
 				if !ok {
 					continue
 				}
-				if _, sp := r.findServicePort(ing.Namespace, svc, port); sp == nil {
+				svcObj, sp := r.findServicePort(ing.Namespace, svc, port)
+				if sp == nil {
+					continue
+				}
+				// the annotations of the Service have precedence over the ones of the Ingress, key by key
+				url, oauth := ingURL, ingOAuth
+				twoURLs := false
+				if v, ok := svcObj.Annotations[annPrefix+"auth-url"]; ok {
+					// (the host, hence the frontend placement, only sees the one of the Ingress: with two distinct
+					// declarations either service authenticates the path, and the target is not judged)
+					twoURLs = ingURL != "" && ingURL != v
+					url = v
+					r.probe("auth_declared_on_service")
+				}
+				if v, ok := svcObj.Annotations[annPrefix+"oauth"]; ok {
+					oauth = v
+				}
+				if url == "" && oauth == "" {
 					continue
 				}
 				path := p.Path
@@ -342,7 +356,10 @@ func (r *Run) checkExtAuth() {
 							}
 							// (a request that fell to the default host is resolved again inside the backend, where
 							// it may legitimately match the host rule of another ingress: no target check there)
-							if len(out.Intercepts) > 0 && url != "" && exp.accept[0].host != "" {
+							// (with declarations on Services two rules of one ingress can tie for a request and carry
+							// different URLs: the target is judged when the request ended in this path's backend)
+							if len(out.Intercepts) > 0 && url != "" && exp.accept[0].host != "" && !twoURLs &&
+								(out.Backend == "" || r.backendOfIngressPath(ing, svc, port, out.Backend)) {
 								// auth-url has precedence over oauth
 								r.probe("auth_target_checked")
 								if strings.HasPrefix(url, "svc") {
@@ -478,8 +495,14 @@ func (r *Run) checkInterceptTarget(c *HAConfig, ing *networking.Ingress, url str
 	}
 	// _auth_<port> -> 127.0.0.1:<port> -> auth proxy frontend -> real auth backend
 	be := c.Backends[authBackend]
-	if be == nil || len(be.Servers) != 1 {
-		return "auth backend " + authBackend + " does not exist"
+	if be == nil {
+		// auth-request.lua answers 500 for an unknown backend (txn.auth_response_successful stays false) and
+		// the deny rule that follows the intercept refuses the request: closed, as the property asks
+		r.probe("auth_intercept_dangling_denied")
+		return ""
+	}
+	if len(be.Servers) != 1 {
+		return "auth backend " + authBackend + " has no single server"
 	}
 	port := be.Servers[0].Port
 	fs := c.authProxyFrontend()
